@@ -1660,6 +1660,152 @@ theorem receiveAll_cut_inside (ms : List Rfc6455.Msg) (m : Rfc6455.Msg) (t1 : Li
       List.append_nil, List.reverse_replicate, List.filter_append, filter_replicate_nil, hx1]
     simp
 
+/-! ## a frame that fails the connection (cut short, reserved opcode, short Close) anywhere in a conversation -/
+
+/-- a tail of the stream at which `receive()` gives up: whatever has been accumulated, the call returns an empty
+    message and leaves the connection closed -/
+def Terminal (tail : List UInt8) : Prop :=
+  tail ≠ [] ∧ ∀ (fuel : Nat) (c : Conn) (msg : List UInt8) (pm : Bool), Live c → c.inp = tail →
+    ∃ c', c'.closed = true ∧ c'.fault = false ∧ recvLoop (fuel + 1) c msg pm = ([], c')
+
+theorem terminal_cut (fin : Bool) (op : Nat) (hop : op < 16) (key : Option Rfc6455.Key) (p : List UInt8) (hp : Fits p)
+    (k : Nat) (hk0 : 0 < k) (hk : k < (Rfc6455.frame fin op key p).length) : Terminal ((Rfc6455.frame fin op key p).take k) := by
+  have hcut : (Rfc6455.frame fin op key p).take k ≠ [] := by
+    intro h0
+    have := congrArg List.length h0
+    simp only [List.length_take, List.length_nil] at this; omega
+  refine ⟨hcut, fun fuel c msg pm hc hi => ⟨{ c with closed := true, inp := [] }, rfl, hc.sound, ?_⟩⟩
+  have hclosed : c.isClosed = false := by
+    unfold Conn.isClosed; rw [hc.open_, hi]
+    cases hh : (Rfc6455.frame fin op key p).take k with
+    | nil => exact absurd hh hcut
+    | cons a t => rfl
+  rw [recvLoop, hclosed, hi, truncated_frame_close fin op hop key p hp k hk]
+  simp
+
+/-- a frame with a reserved opcode fails the connection (3e00d94) -/
+theorem terminal_reserved (fin : Bool) (op : Nat) (hop : op < 16)
+    (hres : op ≠ 0 ∧ op ≠ 1 ∧ op ≠ 2 ∧ op ≠ 8 ∧ op ≠ 9 ∧ op ≠ 10) (key : Option Rfc6455.Key) (p : List UInt8) (hp : Fits p)
+    (rest : List UInt8) : Terminal (Rfc6455.frame fin op key p ++ rest) := by
+  refine ⟨by simp [frame_ne_nil], fun fuel c msg pm hc hi => ⟨{ c with closed := true, inp := rest }, rfl, hc.sound, ?_⟩⟩
+  rw [recvLoop, isClosed_frame c hc _ rest (frame_ne_nil fin op key p) hi, hi,
+    readFrame_frame fin op hop key p hp rest msg.length (fun h => by omega)]
+  have h2 : ¬ op ≤ 2 := by omega
+  have h8 : ¬ op = 8 := hres.2.2.2.1
+  have h9 : (op = 9 || op = 10) = false := by simp [hres.2.2.2.2.1, hres.2.2.2.2.2]
+  simp [h2, h8, h9]
+
+/-- a Close frame with fewer than two payload bytes closes the connection and delivers nothing, whatever had
+    been accumulated (10948e4) -/
+theorem terminal_short_close (fin : Bool) (key : Option Rfc6455.Key) (p : List UInt8) (hp : p.length < 2)
+    (rest : List UInt8) : Terminal (Rfc6455.frame fin 8 key p ++ rest) := by
+  refine ⟨by simp [frame_ne_nil], fun fuel c msg pm hc hi => ⟨{ c with closed := true, inp := rest }, rfl, hc.sound, ?_⟩⟩
+  rw [recvLoop, isClosed_frame c hc _ rest (frame_ne_nil fin 8 key p) hi, hi,
+    readFrame_frame fin 8 (by decide) key p (by omega) rest msg.length (fun h => by omega)]
+  have : ¬ p.length ≥ 2 := by omega
+  simp [this]
+
+theorem recv_terminal_partial (cs : List Rfc6455.Ctl) (tail : List UInt8) (ht : Terminal tail)
+    (fuel : Nat) (c : Conn) (msg : List UInt8) (hc : Live c) (hcs : CtlsFit cs)
+    (hi : c.inp = Rfc6455.ctlBytes cs ++ tail) :
+    ∃ c', c'.closed = true ∧ c'.fault = false ∧ recvLoop (fuel + 1 + cs.length) c msg true = ([], c') := by
+  have hcut : tail ≠ [] := ht.1
+  obtain ⟨c1, hl1, hi1, _, hr1⟩ := recv_ctls_partial cs (fuel + 1) c msg _ hc hcs hcut hi
+  obtain ⟨c3, g1, g2, g3⟩ := ht.2 fuel c1 msg true hl1 hi1
+  exact ⟨c3, g1, g2, by rw [hr1, g3]⟩
+
+theorem receiveAll_terminal (ms : List Rfc6455.Msg) (cs : List Rfc6455.Ctl) (tail : List UInt8) (ht : Terminal tail) (c : Conn)
+    (hc : Live c) (hm : ∀ m ∈ ms, MsgFits m) (hcs : CtlsFit cs)
+    (hi : c.inp = ms.flatMap Rfc6455.Msg.bytes ++ (Rfc6455.ctlBytes cs ++ tail)) :
+    ∃ extra c', receiveAll (c.inp.length + 1) c [] = (extra, c') ∧
+      extra.filter (· ≠ []) = (ms.map (·.payload)).filter (· ≠ []) ∧ c'.closed = true ∧ c'.fault = false := by
+  have hcut : tail ≠ [] := ht.1
+  have hrest : Rfc6455.ctlBytes cs ++ tail ≠ [] := by simp [hcut]
+  obtain ⟨extra, c1, f1, hl1, hi1, _, hf1, hr1, hx1⟩ := receiveAll_msgs ms (c.inp.length + 1) c [] _ hc hm hrest hi (by omega)
+  have hcl := ctlBytes_length cs
+  obtain ⟨f2, hf2⟩ : ∃ f2, f1 = (f2 + 1) + cs.length := ⟨f1 - cs.length - 1, by simp at hf1; omega⟩
+  obtain ⟨c2, hl2, hi2, _, hr2⟩ := receiveAll_ctls cs (f2 + 1) c1 (extra.reverse ++ []) _ hl1 hcs hcut hi1
+  have hclosed2 : c2.isClosed = false := by
+    unfold Conn.isClosed; rw [hl2.open_, hi2]
+    cases hh : tail with
+    | nil => exact absurd hh hcut
+    | cons a t => rfl
+  obtain ⟨c3, hc3, hf3, hrecv0⟩ := ht.2 c2.inp.length c2 [] false hl2 hi2
+  have hrecv : receive c2 = ([], c3) := by unfold receive; exact hrecv0
+  refine ⟨(([] : List UInt8) :: (List.replicate cs.length [] ++ (extra.reverse ++ []))).reverse, { c3 with closed := true }, ?_, ?_, rfl, hf3⟩
+  · rw [hr1, hf2, hr2, receiveAll, hclosed2]
+    simp only [Bool.false_eq_true, if_false, hrecv]
+    cases f2 with
+    | zero => simp [receiveAll, closed_eta c3 hc3]
+    | succ f => simp [receiveAll, Conn.isClosed, hc3]
+  · simp only [List.reverse_cons, List.reverse_append, List.reverse_reverse, List.reverse_nil, List.nil_append,
+      List.append_nil, List.reverse_replicate, List.filter_append, filter_replicate_nil, hx1]
+    simp
+
+
+theorem receiveAll_terminal_inside (ms : List Rfc6455.Msg) (m : Rfc6455.Msg) (t1 : List Rfc6455.Frag) (cs : List Rfc6455.Ctl)
+    (tail : List UInt8) (ht : Terminal tail) (c : Conn)
+    (hc : Live c) (hm : ∀ x ∈ ms, MsgFits x) (hfirst : FragFits m.first) (ht1 : ∀ f ∈ t1, FragFits f)
+    (htot : m.first.payload.length + (t1.flatMap (·.payload)).length ≤ 2147483632)
+    (hcs : CtlsFit cs)
+    (hi : c.inp = ms.flatMap Rfc6455.Msg.bytes ++ (Rfc6455.ctlBytes m.first.before ++
+            (Rfc6455.frame false (msgOp m) m.first.key m.first.payload ++ (Rfc6455.openBytes t1 ++
+              (Rfc6455.ctlBytes cs ++ tail))))) :
+    ∃ extra c', receiveAll (c.inp.length + 1) c [] = (extra, c') ∧
+      extra.filter (· ≠ []) = (ms.map (·.payload)).filter (· ≠ []) ∧
+      c'.closed = true ∧ c'.fault = false := by
+  have hcut : tail ≠ [] := ht.1
+  have hcutlen : 1 ≤ (tail).length := by
+    cases hh : tail with
+    | nil => exact absurd hh hcut
+    | cons a t => simp
+  have hop2 : msgOp m ≤ 2 := by unfold msgOp; split <;> decide
+  -- the complete messages
+  have hrest0 : Rfc6455.ctlBytes m.first.before ++ (Rfc6455.frame false (msgOp m) m.first.key m.first.payload ++
+      (Rfc6455.openBytes t1 ++ (Rfc6455.ctlBytes cs ++ tail))) ≠ [] := by
+    simp [frame_ne_nil]
+  obtain ⟨extra, c1, f1, hl1, hi1, _, hf1, hr1, hx1⟩ := receiveAll_msgs ms (c.inp.length + 1) c [] _ hc hm hrest0 hi (by omega)
+  -- control frames before the first fragment
+  have hb := ctlBytes_length m.first.before
+  have hfr := frame_length_ge false (msgOp m) m.first.key m.first.payload
+  simp only [List.length_append] at hf1
+  obtain ⟨f2, hf2⟩ : ∃ f2, f1 = (f2 + 1) + m.first.before.length := ⟨f1 - m.first.before.length - 1, by omega⟩
+  have hne1 : Rfc6455.frame false (msgOp m) m.first.key m.first.payload ++
+      (Rfc6455.openBytes t1 ++ (Rfc6455.ctlBytes cs ++ tail)) ≠ [] := by
+    simp [frame_ne_nil]
+  obtain ⟨c2, hl2, hi2, _, hr2⟩ := receiveAll_ctls m.first.before (f2 + 1) c1 (extra.reverse ++ []) _ hl1 hfirst.2 hne1 hi1
+  have hcl2 : c2.isClosed = false := isClosed_frame c2 hl2 _ _ (frame_ne_nil false (msgOp m) m.first.key m.first.payload) hi2
+  -- the interrupted receive()
+  have hne3 : Rfc6455.openBytes t1 ++ (Rfc6455.ctlBytes cs ++ tail) ≠ [] := by simp [hcut]
+  have hne4 : Rfc6455.ctlBytes cs ++ tail ≠ [] := by simp [hcut]
+  have hsz := openBytes_size_le t1
+  have hcsl := ctlBytes_length cs
+  have hlen2 : c2.inp.length = (Rfc6455.frame false (msgOp m) m.first.key m.first.payload).length +
+      ((Rfc6455.openBytes t1).length + ((Rfc6455.ctlBytes cs).length + (tail).length)) := by
+    rw [hi2]; simp only [List.length_append]
+  obtain ⟨f3, hf3⟩ : ∃ f3, c2.inp.length = (f3 + 1 + cs.length) + moreSize t1 :=
+    ⟨c2.inp.length - moreSize t1 - cs.length - 1, by omega⟩
+  have hrecv : ∃ c3, c3.closed = true ∧ c3.fault = false ∧ receive c2 = ([], c3) := by
+    unfold receive
+    rw [recv_data_more c2.inp.length c2 hl2 [] false (msgOp m) hop2 m.first.key m.first.payload _ hfirst.1
+      (by have : m.first.payload.length ≤ 2147483632 := hfirst.1; simpa using this) hi2, hf3]
+    obtain ⟨c', h1, h2, _, h4⟩ := recv_open t1 (f3 + 1 + cs.length) { c2 with inp := Rfc6455.openBytes t1 ++ (Rfc6455.ctlBytes cs ++ tail) }
+      ([] ++ m.first.payload) _ ⟨hl2.open_, hl2.sound⟩ ht1 (by simpa using htot) hne4 rfl
+    rw [h4]
+    obtain ⟨c3, g1, g2, g3⟩ := recv_terminal_partial cs tail ht f3 c' ([] ++ m.first.payload ++ t1.flatMap (·.payload)) h1 hcs h2
+    exact ⟨c3, g1, g2, g3⟩
+  obtain ⟨c3, hc3, hf3', hrecv⟩ := hrecv
+  refine ⟨(([] : List UInt8) :: (List.replicate m.first.before.length [] ++ (extra.reverse ++ []))).reverse, { c3 with closed := true }, ?_, ?_, rfl, hf3'⟩
+  · rw [hr1, hf2, hr2, receiveAll, hcl2]
+    simp only [Bool.false_eq_true, if_false, hrecv]
+    cases f2 with
+    | zero => simp [receiveAll, closed_eta c3 hc3]
+    | succ f => simp [receiveAll, Conn.isClosed, hc3]
+  · simp only [List.reverse_cons, List.reverse_append, List.reverse_reverse, List.reverse_nil, List.nil_append,
+      List.append_nil, List.reverse_replicate, List.filter_append, filter_replicate_nil, hx1]
+    simp
+
+
 /-! ## handshake header lines -/
 
 theorem dropWhile_all_append {α} (p : α → Bool) (a b : List α) (h : ∀ x ∈ a, p x = true) :
